@@ -92,7 +92,8 @@ def scale_props(sc, given=True, status="unscaled", unsupported=False):
     return props
 
 
-OTHER = [{"kind": "Linear", "src": -1, "p": {"slope": 10, "icpt": 100}}]
+OTHER = [{"kind": "Linear", "src": -1, "p": {"slope": 10, "icpt": 100}},
+         {"kind": "Linear", "src": 0, "p": {"slope": 1, "icpt": 7}}]
 
 
 def level_props(case, level):
@@ -139,8 +140,9 @@ def build_scaled_file(case, data, variant=0, with_zero_channel=True):
     return {"segs": segs, "_values": {C: vals}}
 
 
-def build_scaled_daqmx_file(case, data, variant=0):
-    """one DAQmx channel with two raw scalers (ids 0 and 1) in one raw buffer; scaler id holds data + 10 * id"""
+def build_scaled_daqmx_file(case, data, variant=0, dl=False):
+    """one DAQmx channel with two raw scalers (ids 0 and 1) in one raw buffer; scaler id holds data + 10 * id
+    (dl: digital-line scalers addressing one bit each - random buffer bytes, used for dtype questions only)"""
     sc = case["scales"]
     tys = [TDMS_OF[sc[0]["ty"]], TDMS_OF[sc[1]["ty"]]]
     sz = [enc.size_of(t) for t in tys]
@@ -151,6 +153,10 @@ def build_scaled_daqmx_file(case, data, variant=0):
     two = (variant // 6) % 2 == 1 and len(data) % 2 == 0
     d = {"kind": "fc", "widths": widths, "scalers": [{"id": 0, "ty": tys[0], "buf": 0, "off": pad},
                                                      {"id": 1, "ty": tys[1], "buf": 0, "off": pad + sz[0]}]}
+    if dl:
+        d = {"kind": "dl", "widths": widths, "scalers": [{"id": 0, "ty": tys[0], "buf": 0, "off": 8 * pad + 2},
+                                                         {"id": 1, "ty": tys[1], "buf": 0, "off": 8 * (pad + sz[0]) + 5}]}
+        forced = None
     seg = {"meta": True, "newlist": True, "be": be, "il": False, "k": 1,
            "listed": [{"p": "/", "kind": "nodata", "props": []}, {"p": G, "kind": "nodata", "props": []},
                       {"p": C, "kind": "full", "props": scale_props(sc, given=True)}],
@@ -372,7 +378,9 @@ def replay_dtype_scaled_case(case):
     daq = c["scales"][0]["kind"] == "Scaler"
     if daq:
         variant = (h + seed) % 12
-        fd = build_scaled_daqmx_file(c, rec["data"], variant)
+        # unsigned scaler types may also be digital-line scalers (one addressed bit, same declared type)
+        dl = all(s_["ty"].startswith("uint") for s_ in c["scales"][:2]) and (h // 5 + seed) % 2 == 1
+        fd = build_scaled_daqmx_file(c, rec["data"], variant, dl=dl)
     else:
         fd = build_scaled_file(c, rec["data"], variant, with_zero_channel=True)
     e = encode_with_values(fd, seed)
